@@ -326,11 +326,16 @@ func laggingReceiver(c *runner.Cfg, res *report.Result, logger *netx.RecLogger) 
 			return
 		}
 		// the receiver lags: nothing is read until the sender has pushed all it can
-		Settle(20*time.Second, func() bool {
-			a := sent.Load()
-			time.Sleep(150 * time.Millisecond)
-			return sent.Load() == a && (a > 0 || sendSt.Load() != nil)
-		})
+		// (every shape fits its window, so all sends can complete; the fallback is a sender that has not
+		// moved for half a second)
+		if !Settle(20*time.Second, func() bool { return int(sent.Load()) >= sh.count || sendSt.Load() != nil }) {
+			Settle(20*time.Second, func() bool {
+				a := sent.Load()
+				time.Sleep(500 * time.Millisecond)
+				return sent.Load() == a && (a > 0 || sendSt.Load() != nil)
+			})
+		}
+		time.Sleep(300 * time.Millisecond) // what was queued last reaches the receiving connection
 		pushed := sent.Load()
 		w := map[string]any{"stream": "C03/lag", "index": idx, "window": sh.window, "message_size": sh.size, "messages": sh.count + 1, "compression": compress, "sent_before_the_receiver_read_anything": pushed}
 		next := 0
